@@ -4,7 +4,7 @@
    a sample of every run (the in-kernel sample), so the extraction itself is checked. *)
 From Coq Require Import List Ascii String Bool Arith NArith ZArith.
 Require Import Show.
-Require V1 V5 V6 V3 V11 A1 D3 M6 M6b GS R2 AR AR2 AR3 CL TS3 CX SchemaDefs Schema_gen H12 H13 S11 D16 DEB U20.
+Require V1 V5 V6 V3 V11 A1 D3 M6 M6b GS R2 R2u AR AR2 AR3 CL TS3 CX SchemaDefs Schema_gen H12 H13 S11 D16 DEB U20.
 Import ListNotations.
 Open Scope string_scope.
 Open Scope list_scope.
@@ -146,7 +146,7 @@ Definition show_paras (ps : list R2.para) : str := show_list show_para ps.
 Fixpoint next_loop (fuel : nat) (ls : list str) (acc : list R2.para) : list R2.para * bool :=
   match fuel with
   | O => (acc, false)
-  | S f => match R2.next R2.empty_para [] ls with
+  | S f => match R2u.next_u R2.empty_para [] ls with
            | R2.REOF => (acc, true)
            | R2.RErr => (acc, false)
            | R2.RPara p rest => next_loop f rest (acc ++ [p])
@@ -162,30 +162,30 @@ Fixpoint para_of_args (a : list str) (p : R2.para) : R2.para :=
 Fixpoint enc_paras (ps : list R2.para) : str :=
   match ps with
   | [] => []
-  | [p] => R2.write_para p
-  | p :: r => R2.write_para p ++ GS.nl :: enc_paras r
+  | [p] => R2u.write_para_u p
+  | p :: r => R2u.write_para_u p ++ GS.nl :: enc_paras r
   end.
 
 Definition run_deb822 (op : string) (a : list str) : option str :=
   let g n := nth_arg n a in
   if (op =? "rall") || (op =? "rslice") || (op =? "rdecode") then
-    Some (match R2.read_all (g 0) with Some ps => lit "ok " ++ show_paras ps | None => lit "err" end)
+    Some (match R2u.read_all_u (g 0) with Some ps => lit "ok " ++ show_paras ps | None => lit "err" end)
   else if op =? "rnext" then
     let ls := GS.lines_of (g 0) in
     let '(ps, eof) := next_loop (S (List.length ls)) ls [] in
     Some (show_paras ps ++ (if eof then lit " eof" else lit " err"))
-  else if op =? "wpara" then Some (hx (R2.write_para (para_of_args a R2.empty_para)))
+  else if op =? "wpara" then Some (hx (R2u.write_para_u (para_of_args a R2.empty_para)))
   else if op =? "wcycle" then
-    Some (match R2.read_all (g 0) with
+    Some (match R2u.read_all_u (g 0) with
           | None => lit "err"
           | Some ps =>
               let t1 := enc_paras ps in
-              match R2.read_all t1 with
+              match R2u.read_all_u t1 with
               | None => lit "ok " ++ hx t1 ++ lit " err"
               | Some ps2 =>
                   let t2 := enc_paras ps2 in
                   lit "ok " ++ hx t1 ++ sp1 ++ hx t2 ++ sp1 ++
-                  match R2.read_all t2 with Some ps3 => show_paras ps3 | None => lit "err" end
+                  match R2u.read_all_u t2 with Some ps3 => show_paras ps3 | None => lit "err" end
               end
           end)
   else None.
@@ -338,7 +338,7 @@ Definition run_codec (op : string) (a : list str) : option str :=
     Some (match schema_named (g 0) with
           | None => lit "no-such-type"
           | Some (sch, _) =>
-              match R2.read_all (g 1) with
+              match R2u.read_all_u (g 1) with
               | None => lit "err"
               | Some ps => match decode_paras sch ps with Some rs => lit "ok " ++ show_list (fun r => lit "<< " ++ show_record r ++ lit " >>") rs | None => lit "err" end
               end
@@ -346,9 +346,9 @@ Definition run_codec (op : string) (a : list str) : option str :=
   else if op =? "tcontrol" then
     Some (match schema_named (lit "source_par"), schema_named (lit "binary_par") with
           | Some (ssch, _), Some (bsch, _) =>
-              match R2.next R2.empty_para [] (GS.lines_of (g 0)) with
+              match R2u.next_u R2.empty_para [] (GS.lines_of (g 0)) with
               | R2.RPara p rest =>
-                  match CX.decode_para ssch p, R2.all_fuel (S (List.length rest)) rest with
+                  match CX.decode_para ssch p, R2u.all_fuel_u (S (List.length rest)) rest with
                   | Some sr, Some ps =>
                       match decode_paras bsch ps with
                       | Some rs => lit "ok << " ++ show_record sr ++ lit " >> " ++ show_list (fun r => lit "<< " ++ show_record r ++ lit " >>") rs
@@ -408,7 +408,7 @@ Definition run_clearsign (op : string) (a : list str) : option str :=
     Some (match S11.new_reader unit str unit cs_decode verify (if arg_bool (g 0) then Some tt else None) (g 1) with
           | S11.RErr _ => lit "err"
           | S11.ROk _ r =>
-              match R2.read_all (S11.r_text _ r) with
+              match R2u.read_all_u (S11.r_text _ r) with
               | None => lit "ok-then-read-error"
               | Some ps => lit "ok signer=" ++ (match S11.r_signer _ r with Some e => hx e | None => lit "-" end) ++ sp1 ++ show_paras ps
               end
